@@ -6,12 +6,18 @@ props = [json.loads(l) for l in open(os.path.join(ROOT, 'properties.jsonl'))]
 E1 = "E1-design-lab"; E2 = "E2-library-monitors"; E3 = "E3-real-cli"
 # id -> (engine, technique, level text, level note)
 CHECKS = {
+ "C11": (E2, "runtime monitoring: instrumented roots/expressions record every DSL/Prepare/Validate/Finalize callback of the real eval.RunDSL; phase-barrier automaton + reference topological order + error accounting over the recorded log",
+         "Every digraph on <=4 labelled roots (cyclic ones included) x every registration order is run through the real eval engine (exhaustive for that sub-space), plus random 5-6 root cases with dynamic registration and error scripts; the callback log is judged by an independent automaton.",
+         "Trusts the instrumented test roots; dependency targets never registered and ReportError from Prepare/Finalize are outside the envelope."),
  "C15": (E2, "runtime monitoring: grid workload (Accept x designed type x pre-set header x value) against the real encoders/decoders; oracle = stdlib format detection + round trip + literal fallback rules",
          "Samples (quick) or enumerates (thorough, exhaustive over the enumerated literals) the response grid and the request grid; every cell is executed against the real goahttp encoder/decoder pair and judged by an oracle that shares no code with goa.",
          "Trusts stdlib json/xml/gob and the monitor's own Content-Type tokenizer; value kinds limited to the enumerated literals."),
  "C16": (E2, "runtime monitoring: generated unambiguous pattern sets mounted on the real Muxer, requests over recorder and real sockets, handler/middleware-side recording of Vars/ResolvePattern, reference matcher + identity-on-values oracle, table-snapshot hook invariant",
          "Pattern sets unambiguous by construction are mounted on goahttp.NewMuxer(); URLs built by substituting escaped hostile values are sent through httptest recorder and a real httptest.Server; handlers and Use()d middlewares record what they saw; 404 bodies are decoded in the negotiated type.",
          "Trusts net/http URL parsing and chi's precedence inside unambiguous sets; dot segments and empty single-segment values excluded (cleaned by net/http/chi); Use after first Handle panics in chi and is not judged."),
+ "C19": (E2, "runtime monitoring + Go race detector: real HTTP middlewares behind httptest servers and real gRPC interceptors over bufconn, handler-side context probes, downstream header/metadata taps, counting ID funcs, recorder-vs-capture comparison; reference model of the documented option semantics",
+         "Option combinations x inbound values x HTTP/gRPC unary/stream x call chains of depth 1-4 are executed against the real middlewares; samplers and StreamCanceler are hammered from 16 goroutines under -race; race reports are read from the GORACE log and de-duplicated by function pair.",
+         "Trusts net/http, grpc-go and bufconn; ambiguous option orders accept both documented readings; non-ASCII IDs not sent over real gRPC hops (grpc-go refuses them)."),
  "C18": (E2, "runtime monitoring: generated workloads against the real pkg/http/grpc error code, reference-model oracle over recorded results",
          "Every generated error sequence is merged under every parenthesisation with fresh originals and judged by an oracle computed from the case description; HTTP/gRPC status tables are enumerated exhaustively (8 flag combinations x names).",
          "Trusts the Go runtime, errors.Is/As, grpc status package. Message separator not asserted."),
